@@ -506,15 +506,19 @@ package jobs
 //@   pure
 
 //@ unit (*FullSyncPipeline).sync
-//@   prop C08 C09 C14
+//@   prop C08 C09 C14 C18
 //@   ghost endOkG bool = false
 //@   ghost startOkG bool = false
+//@   ghost sinkStartedG bool = false
+//@   at call StartFullSync#1 before
+//@     assert [C18,C09:the-source-enters-full-sync-mode-and-captures-its-watermarks-once-before-the-sink-starts-and-before-any-page-is-read] !sinkStartedG
 //@   ghost tokG iface
 //@   requires pipeline != nil && job != nil && job.runner != nil && job.runner.store != nil
 //@   at call GetObject#1 before
 //@     assert [C08:the-sync-state-is-read-from-the-key-it-is-stored-under] $arg1 == server.JobDataIndex && $arg2 == job.id && cast($arg3, "*jobs.SyncJobState") == syncJobState
 //@   at call startFullSync#1
 //@     ghost startOkG := $result == nil
+//@     ghost sinkStartedG := true
 //@   at call DecodeToken#1 before
 //@     assert [C08:every-page-of-the-full-sync-is-read-from-the-token-captured-with-the-previous-page] $arg1 == syncJobState.ContinuationToken
 //@   at call DecodeToken#1
@@ -1002,8 +1006,15 @@ package jobs
 //@   modifies none
 //@   ensures [C08,C09:a-refused-request-is-reported-as-an-error] result != nil
 //@ unit (*httpDatasetSink).processEntities
-//@   prop C09 C08 C04
+//@   prop C09 C08 C04 C15
 //@   ghost statusG int = 0
+//@   ghost ctxG *server.Context = nil
+//@   at call GetGlobalContext#1
+//@     ghost ctxG := $result
+//@   at call Marshal#1 before
+//@     assert [C15:every-batch-is-serialised-behind-the-namespace-context-computed-for-this-very-batch] len(allObjects) == len(entities) + 1 && typeof(allObjects[0]) == typeid("*server.Context") && cast(allObjects[0], "*server.Context") == ctxG
+//@   loop 1
+//@     invariant 0 <= i && len(allObjects) == len(entities) + 1 && typeof(allObjects[0]) == typeid("*server.Context") && cast(allObjects[0], "*server.Context") == ctxG
 //@   requires httpDatasetSink != nil && runner != nil
 //@   ensures [C08,C04:a-batch-counts-as-delivered-only-when-the-receiver-answered-200] result == nil ==> statusG == 200
 //@   at call Do#1
@@ -1054,3 +1065,11 @@ package jobs
 //@   prop C10
 //@   requires entity != nil
 //@   ensures [C10:an-entity-returned-by-an-external-transform-keeps-its-id-content-and-deleted-flag] result != nil && result.ID == entity.ID && result.IsDeleted == entity.IsDeleted && result.Properties == entity.Properties && result.References == entity.References
+
+// ---------------------------------------------------------------------------
+// C11: AsEntity converts a map handed in by a script; the conversion's unchecked assertions on foreign maps run under a
+// recover guard (a panic in a transform worker goroutine would take the whole process down)
+//@ unit (*JavascriptTransform).AsEntity$1
+//@   prop C11
+//@   at call recover#1
+//@     assert [C11:a-sub-entity-conversion-that-panics-is-caught-and-yields-no-entity] true
